@@ -143,7 +143,7 @@ func (multi *MultiEpoch) handleGetSignaturesForAddress(ctx context.Context, conn
 	pk := params.Address
 	limit := params.Limit
 
-	gsfaIndexes, _ := multi.getGsfaReadersInEpochDescendingOrder()
+	gsfaIndexes, epochNums := multi.getGsfaReadersInEpochDescendingOrder()
 	if len(gsfaIndexes) == 0 {
 		return &jsonrpc2.Error{
 			Code:    jsonrpc2.CodeInternalError,
@@ -239,8 +239,13 @@ func (multi *MultiEpoch) handleGetSignaturesForAddress(ctx context.Context, conn
 	// The response is an array of objects: [{signature: string}]
 	response := make([]map[string]any, countTransactions(foundTransactions))
 	numBefore := 0
-	for ei := range foundTransactions {
-		epoch := ei
+	// Walk the epochs from the most recent to the oldest (the order in which they were searched):
+	// iterating over the map itself would list the epochs in a random order.
+	for _, epoch := range epochNums {
+		sigs, ok := foundTransactions[epoch]
+		if !ok {
+			continue
+		}
 		ser, err := multi.GetEpoch(epoch)
 		if err != nil {
 			return &jsonrpc2.Error{
@@ -249,7 +254,6 @@ func (multi *MultiEpoch) handleGetSignaturesForAddress(ctx context.Context, conn
 			}, fmt.Errorf("failed to get epoch %d: %w", epoch, err)
 		}
 
-		sigs := foundTransactions[ei]
 		for i := range sigs {
 			ii := numBefore + i
 			transactionNode := sigs[i]
